@@ -74,6 +74,9 @@ def simplify(plan):
             yield p
 
 
+WORK_BUDGET = 2_000_000     # bytes re-read per run, summed over its crash points
+
+
 def offsets_for(data, bounds, sim, limit=800):
     n = len(data)
     if n <= limit:
@@ -88,7 +91,15 @@ def offsets_for(data, bounds, sim, limit=800):
                     s.add(b + d)
     for _ in range(200):
         s.add(sim.choose(n + 1, "offset"))
-    return sorted(s)
+    offs = sorted(s)
+    # every cut at offset k re-reads k bytes, in the worst schedule one byte per read: keep one run's work bounded
+    # (a 20 KB stream of 100 frames would otherwise cost 15 M read events) by thinning the offsets evenly
+    total = sum(offs)
+    if total > WORK_BUDGET:
+        step = -(-total // WORK_BUDGET)
+        offs = sorted(set(offs[::step]) | {0, n})
+        sim.count("offsets_thinned_streams")
+    return offs
 
 
 def parse_cut(plan, sim, data, k):
@@ -147,6 +158,7 @@ def execute(plan, sim):
         for j in range(1, hdr):
             varint_offsets.add(start + j)
     ends = [end for _, end, _ in bounds]
+    sim.cap = max(sim.cap, 12_000_000)      # the event cap is a backstop against runaway runs, not a work limit
     for k in offsets_for(data, bounds, sim, plan.get("all_offsets_up_to", 800)):
         sim.count("evaluations")
         if k < 3:
